@@ -29,6 +29,9 @@ class RModel(core.Model, IDecodable):
     @staticmethod
     def decode(params):
         m = RModel(params.get('label'), params.get('seed'))
+        if params.get('world') == 'grid':
+            import ECAgent.Environments as envs
+            m.environment = envs.GridWorld(m, 6, 5)      # agents are added through THIS environment's add_agent (position at the origin)
         if params.get('complete'):
             m.complete()             # a model that is already complete while the rest of the description is decoded
         CURRENT[0] = m
